@@ -1087,9 +1087,32 @@ fn drive(c: &Value, world: W) -> bool {
     };
     let stimuli = arr(c, "stimuli");
     let mut si = 0usize;
-    let mut controls: Vec<(u64, Option<Pin<Box<dyn Future<Output = Result<StartUpdateCheckResponse, omaha_client::state_machine::StateMachineGone>>>>>)> = vec![];
+    let mut inject: std::collections::VecDeque<(u64, String)> =
+        arr(c, "inject").iter().map(|x| (x[0].as_u64().unwrap(), x[1].as_str().unwrap().to_string())).collect();
+    let mut events_seen = 0u64;
+    let mut handle = handle;
+    type CtlFut = Pin<Box<dyn Future<Output = Result<StartUpdateCheckResponse, omaha_client::state_machine::StateMachineGone>>>>;
+    let mut controls: Vec<(u64, Option<CtlFut>)> = vec![];
     let mut next_ctl = 0u64;
     let mut polls = 0u64;
+    let send = |handle: &Option<omaha_client::state_machine::ControlHandle>, src: &str, next_ctl: &mut u64,
+                controls: &mut Vec<(u64, Option<CtlFut>)>, cx: &mut Context<'_>, world: &W| {
+        if let Some(h) = handle {
+            let mut h = h.clone();
+            let source = if src == "ondemand" { InstallSource::OnDemand } else { InstallSource::ScheduledTask };
+            let opts = CheckOptions { source };
+            let id = *next_ctl;
+            *next_ctl += 1;
+            world.lock().unwrap().log(format!("ARequest {} {}", id, g_source(&source)), format!("request {} {:?}", id, source));
+            let mut fut: CtlFut = Box::pin(async move { h.start_update_check(opts).await });
+            if let Poll::Ready(r) = fut.as_mut().poll(cx) {
+                world.lock().unwrap().jtrace.push(format!("reply {} immediate {:?}", id, r.is_ok()));
+                controls.push((id, None));
+            } else {
+                controls.push((id, Some(fut)));
+            }
+        }
+    };
     loop {
         polls += 1;
         if polls > 200_000 {
@@ -1114,13 +1137,24 @@ fn drive(c: &Value, world: W) -> bool {
         match r {
             Poll::Ready(Some(ev)) => {
                 let (g, j) = g_event_sm(&ev);
-                let mut w = world.lock().unwrap();
-                match &ev {
-                    StateMachineEvent::StateChange(State::CheckingForUpdates(_)) => w.in_check = true,
-                    StateMachineEvent::UpdateCheckResult(_) => w.in_check = false,
-                    _ => {}
+                let is_result = matches!(ev, StateMachineEvent::UpdateCheckResult(_));
+                {
+                    let mut w = world.lock().unwrap();
+                    match &ev {
+                        StateMachineEvent::StateChange(State::CheckingForUpdates(_)) => w.in_check = true,
+                        StateMachineEvent::UpdateCheckResult(_) => w.in_check = false,
+                        _ => {}
+                    }
+                    w.log(format!("AEvent ({})", g), j);
                 }
-                w.log(format!("AEvent ({})", g), j);
+                // a scripted request that is due is sent right after this event has been taken
+                if let Some((k0, _)) = inject.front() {
+                    if *k0 <= events_seen && !is_result {
+                        let (_, src) = inject.pop_front().unwrap();
+                        send(&handle, &src, &mut next_ctl, &mut controls, &mut cx, &world);
+                    }
+                }
+                events_seen += 1;
             }
             Poll::Ready(None) => break,
             Poll::Pending => {
@@ -1144,19 +1178,12 @@ fn drive(c: &Value, world: W) -> bool {
                         }
                     }
                 } else if let Some(src) = s.get("control").and_then(|x| x.as_str()) {
-                    if let Some(h) = &handle {
-                        let mut h = h.clone();
-                        let opts = CheckOptions { source: if src == "ondemand" { InstallSource::OnDemand } else { InstallSource::ScheduledTask } };
-                        let id = next_ctl;
-                        next_ctl += 1;
-                        let mut fut: Pin<Box<dyn Future<Output = _>>> = Box::pin(async move { h.start_update_check(opts).await });
-                        let first = fut.as_mut().poll(&mut cx);
-                        if let Poll::Ready(_) = first {
-                            world.lock().unwrap().jtrace.push(format!("reply {} immediate", id));
-                            controls.push((id, None));
-                        } else {
-                            controls.push((id, Some(fut)));
-                        }
+                    send(&handle, src, &mut next_ctl, &mut controls, &mut cx, &world);
+                } else if s.get("drop").is_some() {
+                    // drop every control handle (only when no request is outstanding)
+                    if controls.iter().all(|(_, f)| f.is_none()) {
+                        handle = None;
+                        world.lock().unwrap().jtrace.push("handles dropped".into());
                     }
                 }
                 flag.0.store(false, Ordering::SeqCst);
@@ -1164,7 +1191,31 @@ fn drive(c: &Value, world: W) -> bool {
         }
     }
     drop(stream);
-    false
+    // the machine is gone: every outstanding request, and a request made now, must fail at once instead of hanging
+    let mut hang = false;
+    for (id, f) in controls.iter_mut() {
+        if let Some(fut) = f {
+            match fut.as_mut().poll(&mut cx) {
+                Poll::Ready(Err(_)) => world.lock().unwrap().jtrace.push(format!("reply {} Gone", id)),
+                Poll::Ready(Ok(r)) => world.lock().unwrap().jtrace.push(format!("reply {} late {:?}", id, r)),
+                Poll::Pending => { world.lock().unwrap().jtrace.push(format!("reply {} HANGS after the machine is gone", id)); hang = true; }
+            }
+        }
+    }
+    if let Some(h) = &handle {
+        let mut h = h.clone();
+        let mut fut: CtlFut = Box::pin(async move { h.start_update_check(CheckOptions::default()).await });
+        let mut done = false;
+        for _ in 0..3 {
+            if let Poll::Ready(r) = fut.as_mut().poll(&mut cx) {
+                done = true;
+                if r.is_ok() { hang = true; world.lock().unwrap().jtrace.push("request after the machine is gone was answered".into()); }
+                break;
+            }
+        }
+        if !done { hang = true; world.lock().unwrap().jtrace.push("request after the machine is gone HANGS".into()); }
+    }
+    hang
 }
 
 // ---------------------------------------------------------------- Gallina env from the script
@@ -1248,7 +1299,7 @@ pub fn g_env(c: &Value) -> String {
             if let Some(i) = s.get("fire").and_then(|x| x.as_u64()) {
                 format!("Fire {}%nat", i)
             } else {
-                format!("Control {}", if s["control"] == "ondemand" { "OnDemand" } else { "ScheduledTask" })
+                if s.get("drop").is_some() { "DropHandles".to_string() } else { format!("Control {}", if s["control"] == "ondemand" { "OnDemand" } else { "ScheduledTask" }) }
             }
         })
         .collect();
@@ -1256,11 +1307,12 @@ pub fn g_env(c: &Value) -> String {
         "{{| e_clock := {}; e_last_clock := {}; e_store := {{| pend := {}; comm := {}; opn := 0%N |}}; e_faults := {};\n \
          q_next_time := {}; q_allowed := {}; q_can_start := {}; q_reboot_needed := {}; q_reboot_allowed := {};\n \
          q_http := {}; q_plan := {}; q_perform := {}; q_reboot := {}; q_backoff := [];\n \
-         e_stim := {}; e_ctl := 0%N; e_draws := 0%N; e_guids := []; e_nonces := 0%N; e_trace := [] |}}",
+         e_stim := {}; e_ctl := 0%N; e_cs := ctl0 {}; e_draws := 0%N; e_guids := []; e_nonces := 0%N; e_trace := [] |}}",
         g_list(&clock), c0, g_smap(&storage), g_smap(&storage),
         g_list(&arr(c, "faults").iter().map(|x| format!("{}%N", x.as_u64().unwrap())).collect::<Vec<_>>()),
         g_list(&nt), g_list(&al), g_list(&cs), bl("reboot_needed"), bl("reboot_allowed"),
-        g_list(&ht), g_list(&pl), g_list(&pf), bl("reboot"), g_list(&st)
+        g_list(&ht), g_list(&pl), g_list(&pf), bl("reboot"), g_list(&st),
+        g_list(&arr(c, "inject").iter().map(|x| format!("({}%N, {})", x[0].as_u64().unwrap(), if x[1] == "ondemand" { "OnDemand" } else { "ScheduledTask" })).collect::<Vec<_>>())
     )
 }
 
